@@ -1258,7 +1258,9 @@ def check_c14(res):
         g = Gen(res.seed * 23 + int(cfg, 2), clj=cfg[0] == "1", exp=cfg[1] == "1", tags=("inst", "uuid", "my/tag", "x", "y", "fail", "nomsg"))
         docs = [g.document(4) for _ in range(300 if thorough else 100)]
         docs += [b"#inst #uuid #x 1", b"[#fail 1 #inst 2]", b"#_ #fail 1 #inst 2", b"#inst #_ #fail 1 2", b"#nomsg [#inst 1]",
-                 b"{#inst 1 #uuid 2}", b"#{#x 1}", b"#y #y #y 1", b"#my/tag {:a #inst 1}"]
+                 b"{#inst 1 #uuid 2}", b"#{#x 1}", b"#y #y #y 1", b"#my/tag {:a #inst 1}",
+                 b"#_ [#_ 1 #fail 2] 3", b"[#_ (#_ a #inst b) #uuid c]", b"#_ #_ 1 #fail 2 #inst 3",
+                 b"#_ {#_ #fail 1 :a #fail 2} #x 4", b"#_ #inst #_ #fail 1 #fail 2 5"]
         regs = ["-", "+", "inst:0,uuid:1,fail:2,nomsg:3,my/tag:4,x:5"]
         lines, meta = [], []
         for d in docs:
@@ -1288,3 +1290,138 @@ def check_c14(res):
                 res.violations.append(Violation("tag-dispatch-differs-from-configuration", ln,
                                                 "%r reg=%s mode=%d: %s expected %s" % (d[:60], reg, mode, got[:160], want[:160]), cfg))
         res.sample({"cfg": cfg, "doc": lines[5][:120]})
+
+
+# =============================================================================== C16
+def c16_corpus(cfg):
+    clj, exp = cfg[0] == "1", cfg[1] == "1"
+    docs = [b"1", b"nil", b'"abc"', b'"a\\nb"', b":a/b", b"sym", b"\\a", b"1.5", b"12345678901234567890", b"1M", b"##Inf",
+            b"[]", b"[1]", b"[1 2 3 4 5 6 7 8]", b"[1 2 3 4 5 6 7 8 9]", b"[" + b" ".join(str(i).encode() for i in range(13)) + b"]",
+            b"(1 (2 (3)))", b"{:a 1}", b"{:a 1 :b 2 :c 3 :d 4 :e 5 :f 6 :g 7 :h 8 :i 9}", b"#{1 2 3}", b"#inst \"x\"", b"#_ 1 2",
+            b"[1 2", b"{:a}", b"[1 2\n3 4\n \\u12]", b"#{1 1}", b"{:a 1 :a 2}",
+            b"#{" + b" ".join(str(i).encode() for i in range(20)) + b"}",
+            b"#{" + b" ".join(str(i).encode() for i in range(1100)) + b"}",
+            b"#{" + b" ".join(("[%d]" % i).encode() for i in range(30)) + b"}",
+            b"[" + b" ".join(b'"s%d\\n"' % i for i in range(40)) + b"]",
+            b"1." + b"5" * 600, b"[" + b"x" * 20000 + b" 1]"]
+    if clj:
+        docs += [b"^:a [1]", b"^{:a 1} ^:b ^\"T\" ^[x] (1)", b"#:n{:a 1 :b/c 2 :_/d 3}", b"1/2", b"99999999999999999999/3", b"0x10", b"[^:a]"]
+    if exp:
+        docs += [b'"""\n  a\n  b\n  """', b'"""\n' + b"".join(b" l%d\n" % i for i in range(20)) + b' """', b'"""\n a \\""" b"""',
+                 b'"""\n abc', b"1_000", b"1_0N", b"[1_0.5M]"]
+    return docs
+
+
+@prop("C16")
+def check_c16(res):
+    thorough = res.tier == "thorough"
+    res.rule = ("for each document of a corpus covering every reader and collection growth path (0,1,8,9,13 elements, maps, "
+                "sets of 20 / 30 composite / 1100 elements, 40 escaped strings, 600-digit float, 20 kB symbol, text blocks, "
+                "metadata, namespaced maps, error documents with multi-line positions): count the allocation requests "
+                "(libc requests and arena requests, numbered together), then for every index k: {fail only request k, fail "
+                "every request from k on}; the dump exercises the lazy string / big-number accessors under the same "
+                "schedule. oracle: the call returns; result = the complete value of the failure-free run, or NULL + error "
+                "+ message; no sanitizer report (incl. stack-use-after-return), no leak. non-trivial = distinct (document, k, mode)")
+    for cfg in CFGS:
+        docs = c16_corpus(cfg)
+        counts = runner.run_impl(cfg, "fail", ["failcount %s" % hexs(d) for d in docs])
+        lines, meta = [], []
+        for d, cobs in zip(docs, counts):
+            if is_crash(cobs):
+                res.violations.append(Violation("crash-without-failure", "failcount %s" % hexs(d), cobs, cfg))
+                continue
+            n, ref = cobs.split(" ", 1)
+            n = int(n)
+            ks = range(n) if (n <= 80 or thorough) else sorted(set(list(range(40)) + list(range(n - 20, n)) + list(range(40, n, max(1, n // 40)))))
+            for k in ks:
+                for mode in ("failat", "failfrom"):
+                    lines.append("%s %d %s" % (mode, k, hexs(d)))
+                    meta.append((d, k, mode, ref))
+        env_lines = lines
+        from concurrent.futures import ThreadPoolExecutor
+        parts = runner.shard(env_lines, 16)
+        impl = []
+        os.environ["ASAN_OPTIONS_EXTRA"] = "detect_stack_use_after_return=1"
+        with ThreadPoolExecutor(16) as ex:
+            for part in ex.map(lambda p: runner.run_impl(cfg, "fail", p), parts):
+                impl.extend(part)
+        for (d, k, mode, ref), ln, a in zip(meta, lines, impl):
+            res.evaluations += 1
+            res.nontrivial.add((cfg, d[:40], k, mode))
+            res.count(mode)
+            if is_crash(a):
+                res.violations.append(Violation("crash-or-leak-under-allocation-failure:" + refs.crash_class(a), ln, a[:300], cfg))
+            elif a.startswith("OK "):
+                if a != ref:
+                    res.violations.append(Violation("incomplete-or-different-value-under-allocation-failure", ln,
+                                                    "request %d (%s): %s vs failure-free %s" % (k, mode, a[:150], ref[:150]), cfg))
+                res.count("completed")
+            elif a.startswith("ERR "):
+                if a.endswith("nomsg"):
+                    res.violations.append(Violation("error-without-message-under-allocation-failure", ln, a, cfg))
+                res.count("clean-error")
+            else:
+                res.violations.append(Violation("neither-value-nor-error-under-allocation-failure", ln, a[:200], cfg))
+        res.sample({"cfg": cfg, "case": lines[0][:100] if lines else ""})
+
+
+# =============================================================================== C15
+@prop("C15")
+def check_c15(res):
+    rnd = random.Random(res.seed)
+    thorough = res.tier == "thorough"
+    res.rule = ("(a) accepted and rejected documents (every error path: predictable defects, text-block errors, >16-element and "
+                ">1000-element collections with duplicates, multi-line inputs, eof value substitution) in the ASan+LSan build: "
+                "a leak / double free / use after free at exit is a violation; (b) accessor sequences that trigger lazy "
+                "allocation, then re-reading every buffer handed out earlier (pointer and length must not change), registry "
+                "destroyed before the value is inspected, edn_free(NULL); (c) arena request sequences over 0,1,7,8,9, block "
+                "edges, 2^20, SIZE_MAX-k: aligned, disjoint, writable for the full size, NULL when unrepresentable. "
+                "non-trivial = distinct document / script / sequence")
+    for cfg in CFGS:
+        clj, exp = cfg[0] == "1", cfg[1] == "1"
+        g = Gen(res.seed * 29 + int(cfg, 2), clj=clj, exp=exp)
+        docs = [d for d, _ in c10_predictable(rnd, cfg, 300 if thorough else 120)]
+        docs += [g.document(3) for _ in range(100)] + [g.corrupt(g.document(3)) for _ in range(100)]
+        docs += c16_corpus(cfg)
+        docs += [b"#{" + b" ".join(str(i % 900).encode() for i in range(1100)) + b"}", b"", b"  ; only a comment", b"\n\n\n]"]
+        lines = []
+        for d in docs:
+            lines.append(docline(d, reg=rnd.choice(["-", "inst:0,uuid:1,fail:2"]), mode=rnd.randrange(3), eof=rnd.randrange(2)))
+            if rnd.random() < 0.3:
+                lines.append("docreg %s inst:1,uuid:4,x:5 0 0" % hexs(d))
+        lines.append("freenull")
+        impl, model = correspond(res, cfg, "san", lines, label="ownership")
+        for ln, a in zip(lines, impl):
+            res.nontrivial.add(ln)
+            res.count("doc")
+            if is_crash(a):
+                res.violations.append(Violation("leak-or-invalid-free:" + refs.crash_class(a), ln, a[-300:], cfg))
+        # accessor scripts
+        scripts = []
+        for _ in range(150 if thorough else 50):
+            d = b"[" + b" ".join(rnd.choice([g.string(), g.integer(), b"12345678901234567890N", b"1.5M", g.keyword()]) for _ in range(6)) + b"]"
+            ops = ["P0=%s" % hexs(d)]
+            for _ in range(12):
+                ops.append(rnd.choice(["G0.%d", "H0.%d", "D0.%d", "G0.%d"]) % rnd.randrange(6))
+            ops += ["G0.%d" % i for i in range(6)] + ["D0"]
+            scripts.append("script " + ";".join(ops))
+        impl, model = correspond(res, cfg, "san", scripts, label="lazy-buffers")
+        for ln, a in zip(scripts, impl):
+            res.count("script")
+            if is_crash(a) or "!PTRCHANGED" in a or "!LENCHANGED" in a or "!NOTERM" in a:
+                res.violations.append(Violation("handed-out-buffer-changed-or-invalid", ln, a[:300], cfg))
+    # arena sequences
+    sizes = ["0", "1", "7", "8", "9", "15", "16", "17", "88", "16383", "16384", "16385", "65535", "65536", "65537", "262144", "262145",
+             "1048576", "M0", "M3", "M6", "M7", "M8", "M15", "M16", "M23", "M24", "M25", "M100", "M16383", "4611686018427387904"]
+    seqs = []
+    for _ in range(400 if thorough else 150):
+        seqs.append(",".join(rnd.choice(sizes) for _ in range(rnd.randrange(1, 14))))
+    lines = ["arena " + sq for sq in seqs]
+    impl, model = correspond(res, "00", "san", lines, label="arena")
+    for ln, a in zip(lines, impl):
+        res.count("arena-seq")
+        res.nontrivial.add(ln)
+        want = ";".join("NULL" if (t[0] == "M" or int(t) > 2 ** 40) else "ok" for t in ln.split(" ")[1].split(","))
+        if is_crash(a) or a != want:
+            res.violations.append(Violation("arena-request-sequence", ln, "%s expected %s" % (a[:200], want[:200]), "00"))
+    res.sample({"arena": lines[0]})
